@@ -158,6 +158,7 @@ func runBinary(c *tcase) (stdout string, before, after time.Time, err error) {
 		_ = os.WriteFile(filepath.Join(ws, n), []byte(s), 0o644)
 	}
 	for n, s := range c.Other {
+		_ = os.MkdirAll(filepath.Dir(filepath.Join(ws, n)), 0o755)
 		_ = os.WriteFile(filepath.Join(ws, n), []byte(s), 0o644)
 	}
 	args := []string{"run"}
@@ -476,6 +477,22 @@ func genCase(t *rapid.T) (*tcase, bool, []string) {
 			c.Other["notes.txt"] = "not a script = ="
 			c.Other["main.txt"] = "nosuch()"
 		}
+		if rapid.IntRange(0, 2).Draw(t, "subdir") == 0 {
+			// sub-directories are not part of the workspace: namesakes of the selected script and of a sibling,
+			// a script that exists only there, a directory whose name looks like a script
+			sub := rapid.SampledFrom([]string{"old", "zz", "vendor", "a", "~bak", "main.p.d"}).Draw(t, "subname")
+			c.Other[sub+"/"+c.Name] = "add_key(from_subdir, 1)\nset_measurement(\"subdir\")"
+			c.Other[sub+"/sib.p"] = "add_key(from_subdir_sib, 1)"
+			c.Other[sub+"/only_here.p"] = "add_key(only_here, 1)"
+			c.Other[sub+"/deeper/"+c.Name] = "nosuch()"
+			labels = append(labels, "workspace/sub-directory-with-namesakes")
+			if rapid.IntRange(0, 3).Draw(t, "use-only-here") == 0 {
+				lines = append(lines, "use(\"only_here.p\")")
+				c.Scripts[c.Name] = strings.Join(lines, "\n")
+				labels = append(labels, "script/uses-script-of-sub-directory")
+				nontrivial = true
+			}
+		}
 		if rapid.IntRange(0, 3).Draw(t, "decoy") == 0 {
 			c.Scripts["a"+c.Name] = "add_key(decoy, 1)"
 			c.Scripts["main2.p"] = "add_key(decoy2, 1)"
@@ -485,8 +502,23 @@ func genCase(t *rapid.T) (*tcase, bool, []string) {
 	switch c.Input {
 	case "text":
 		c.Data = rapid.SampledFrom(textInputs).Draw(t, "text")
+		if rapid.IntRange(0, 9).Draw(t, "bigtext") == 0 {
+			// sizes around the usual buffer limits
+			n := rapid.SampledFrom([]int{4095, 4096, 4097, 65535, 65536, 65537, 70000, 1<<20 + 1}).Draw(t, "textsize")
+			c.Data = strings.Repeat("0123456789 abcdef\n", n/18+1)[:n]
+			labels = append(labels, "input/large-text")
+		}
 	case "lineprotocol":
 		c.Data = rapid.SampledFrom(lpInputs).Draw(t, "lp")
+		if rapid.IntRange(0, 9).Draw(t, "biglp") == 0 {
+			n := rapid.SampledFrom([]int{4000, 65500, 65536, 70000, 300000}).Draw(t, "lpsize")
+			first := "big,host=h1 message=\"" + strings.Repeat("x", n) + "\",n=3i 1600000000000000000\n"
+			if rapid.Bool().Draw(t, "manylines") {
+				first = "cpu,host=h1 usage=1.5,n=3i,message=\"first\" 1600000000000000000\n" + strings.Repeat("cpu,host=h2 usage=2.5,n=4i 1600000000000000001\n", n/46+1)
+			}
+			c.Data = first
+			labels = append(labels, "input/large-line-protocol")
+		}
 	}
 	c.Format = rapid.SampledFrom([]string{"json", "lineprotocol"}).Draw(t, "format")
 	return c, nontrivial, labels
